@@ -279,13 +279,18 @@ def gen_object_case(rng, idx):
     if rng.random() < 0.15:
         viewer.pop("viewRayDensity", None)
         viewer["viewRayCount"] = [rng.choice([40, 80, 160]), rng.choice([40, 80])]
+    if "viewRayDensity" in viewer and rng.random() < 0.1:
+        # viewRayDistanceScaling: ray counts are multiplied by the distance to the target's position
+        viewer["viewRayDistanceScaling"] = True
+        viewer["viewRayDensity"] = round(viewer["viewRayDensity"] / max(1.0, dist), 4)
+    dscale = dist if viewer.get("viewRayDistanceScaling") else 1.0
     # ray budget: the cost of a case is (rays in the target's angular window) x (ray/mesh queries over all occluder
     # subsets); a few close, large, fully screened targets used to take most of the run.  Lower the ray density
     # (then drop extra occluders) until the worst-case cost fits.
     ang = math.pi if dist < 1.9 * size else 2 * math.asin(min(1.0, 1.8 * size / dist))
     wh = min(h, ang / max(0.2, math.cos(min(1.4, abs(alt) + ang / 2))))
     wv = min(v, ang)
-    while True:
+    for _ in range(60):
         n = len(occ)
         queries = (1 << n) * (1 + n / 2.0)
         if "viewRayCount" in viewer:
@@ -293,19 +298,55 @@ def gen_object_case(rng, idx):
             rays = max(1.0, wh / h * rc[0]) * max(1.0, wv / v * rc[1])
         else:
             dn = viewer["viewRayDensity"]
-            rays = max(1.0, math.degrees(wh) * dn) * max(1.0, math.degrees(wv) * dn)
+            rays = max(1.0, math.degrees(wh) * dn * dscale) * max(1.0, math.degrees(wv) * dn * dscale)
         if rays * queries <= RAY_BUDGET:
             break
-        f = math.sqrt(RAY_BUDGET / (rays * queries))
+        f = min(0.9, math.sqrt(RAY_BUDGET / (rays * queries)))
         if "viewRayCount" in viewer and min(viewer["viewRayCount"]) > 12:
             viewer["viewRayCount"] = [max(12, int(x * f)) for x in viewer["viewRayCount"]]
-        elif "viewRayDensity" in viewer and viewer["viewRayDensity"] > 0.25:
-            viewer["viewRayDensity"] = max(0.25, round(viewer["viewRayDensity"] * f, 3))
+        elif "viewRayDensity" in viewer and viewer["viewRayDensity"] * dscale > 0.25:
+            viewer["viewRayDensity"] = max(0.25 / dscale, round(viewer["viewRayDensity"] * f, 4))
         elif n > 1:
             occ.pop()
         else:
             break
     return dict(id=f"ob{idx}", viewer=viewer, target=tgt, occ=occ, mode=mode, place=dict(az=az, alt=alt, dist=dist))
+
+
+def gen_2d_case(rng, idx):
+    """2D compatibility classes (Point2D / OrientedPoint2D / Object2D viewers, no occluders: the `_canSee2D` fast path)"""
+    r = rng.random()
+    cls = "Point2D" if r < 0.12 else ("OrientedPoint2D" if r < 0.5 else "Object2D")
+    pos = [rng.uniform(-200, 200), rng.uniform(-200, 200)] if rng.random() < 0.85 else [0.0, 0.0]
+    heading = rng.choice([0.0, math.pi / 2, -math.pi / 2, math.pi]) if rng.random() < 0.15 else rng.uniform(-math.pi, math.pi)
+    ak = rng.choice(["narrow", "medium", "wide", "full"])
+    angle = math.radians(dict(narrow=rng.uniform(10, 60), medium=rng.uniform(60, 180), wide=rng.uniform(180, 350), full=360.0)[ak])
+    d = rng.uniform(5, 60)
+    viewer = dict(cls=cls, pos=pos, heading=heading, angle=angle, d=d, ak=ak)
+    c = list(pos)
+    if cls == "Object2D":
+        cam = [rng.uniform(-2, 2), rng.uniform(-2, 2)] if rng.random() < 0.7 else [0.0, 0.0]
+        viewer["cam"] = cam
+        c = [pos[0] + math.cos(heading) * cam[0] - math.sin(heading) * cam[1], pos[1] + math.sin(heading) * cam[0] + math.cos(heading) * cam[1]]
+    if cls == "Point2D":
+        viewer["ak"], angle = "full", math.tau
+    k = rng.random()
+    if k < 0.4:
+        delta = rng.choice([-1, 1]) * (angle / 2) * rng.uniform(0.85, 1.15)
+    elif k < 0.7:
+        delta = rng.uniform(-angle / 2, angle / 2) * 0.95
+    else:
+        delta = rng.uniform(-math.pi, math.pi)
+    dist = d * (rng.uniform(0.9, 1.1) if rng.random() < 0.3 else rng.uniform(0.05, 0.98))
+    b = heading + delta
+    p = [c[0] - dist * math.sin(b), c[1] + dist * math.cos(b)]
+    kind = rng.choice(["vector", "vector", "point", "opoint", "object", "object"])
+    tgt = dict(kind=kind, pos=[p[0], p[1], 0.0])
+    if kind == "vector" and rng.random() < 0.1:
+        tgt["pos"][2] = rng.choice([0.5, -2.0])         # a vector off the plane is never seen in 2D
+    if kind == "object":
+        tgt.update(heading=rng.uniform(-math.pi, math.pi), dims=[rng.uniform(0.5, 4), rng.uniform(0.5, 4)])
+    return dict(id=f"td{idx}", viewer=viewer, target=tgt, place=dict(delta=delta, dist=dist))
 
 
 def gen_plumbing_case(rng, idx):
@@ -510,6 +551,8 @@ def check_object(c, case, r, exe):
             rc = case["viewer"]["viewRayCount"]
             spacing = max(r["va"][0] / rc[0], r["va"][1] / rc[1])
         else:
+            if case["viewer"].get("viewRayDistanceScaling"):
+                dens = dens * norm(sub(T["centre"], cam))
             spacing = math.radians(1.0 / dens)
         bl = local_of(r, bw)
         baz, balt = az_alt(bl)
@@ -541,6 +584,85 @@ def check_object(c, case, r, exe):
                         break
 
 
+def obj_cmd(case, r):
+    g = r["grid"]
+    v = case["viewer"]
+    if "viewRayCount" in v:
+        mode, p1, p2 = "C", float(v["viewRayCount"][0]), float(v["viewRayCount"][1])
+    else:
+        dsc = norm(sub(r["target"]["centre"], r["c"])) if v.get("viewRayDistanceScaling") else 1.0
+        mode, p1, p2 = "D", float(v.get("viewRayDensity", 5)), dsc
+    t = ["OBJ", hx(r["va"][0]), hx(r["va"][1]), mode, hx(p1), hx(p2), str(len(g["verts"]))]
+    t += [hx(x) for w in g["verts"] for x in w]
+    t.append(str(len(g["edges"])))
+    t += [str(i) for e in g["edges"] for i in e]
+    return " ".join(t), (mode, p1, p2)
+
+
+def parse_obj(line):
+    p = line.split()
+    if p[0] == "EXN":
+        return None
+    f = float.fromhex
+    o = dict(tag=p[0], ahead=p[1] == "1", behind=p[2] == "1", nextra=int(p[3]), hmin=f(p[4]), hmax=f(p[5]), vmin=f(p[6]), vmax=f(p[7]),
+             smin=f(p[8]), smax=f(p[9]), miny=f(p[10]), minx=f(p[11]), windows=[], rows=[], nrays=0)
+    if o["tag"] == "NONE":
+        return o
+    k = 12
+    nw = int(p[k]); k += 1
+    for _ in range(nw):
+        o["windows"].append([f(x) for x in p[k:k + 4]]); k += 4
+    if o["tag"] == "ASSERT":
+        return o
+    o["nrays"] = int(p[k]); nr = int(p[k + 1]); k += 2
+    for _ in range(nr):
+        o["rows"].append([f(p[k]), int(p[k + 1]), f(p[k + 2]), f(p[k + 3]), f(p[k + 4]), f(p[k + 5])]); k += 6
+    return o
+
+
+def grid_margin(m, r, rc):
+    """smallest distance of any discrete decision of the window/grid computation from its threshold (float vs exact)"""
+    h, v = r["va"]
+    ms = [m["miny"], m["minx"], abs(m["vmin"] - v / 2), abs(m["vmax"] + v / 2)]
+    if m["behind"] and not m["ahead"]:
+        ms += [abs(h / 2 + abs(m["smax"]) - math.pi), abs(h / 2 + abs(m["smin"]) - math.pi)]
+    elif not m["behind"]:
+        ms += [abs(m["hmax"] + h / 2), abs(m["hmin"] - h / 2)]
+    mode, p1, p2 = rc
+    if mode == "D":
+        rch, rcv = math.degrees(h) * p1 * p2, math.degrees(v) * p1 * p2
+    else:
+        rch, rcv = p1, p2
+    near = lambda x: abs(x - round(x))
+    for (hl, hh_, vl, vh_) in m["windows"]:
+        ms += [abs(hh_ - hl), abs(vh_ - vl), near((vh_ - vl) / v * rcv)]
+        if mode == "C":
+            ms.append(near((hh_ - hl) / h * rch))
+        else:
+            nv = max(1, math.ceil((vh_ - vl) / v * rcv))
+            for i in range(nv):
+                a = vl if nv == 1 else vl + i * (vh_ - vl) / (nv - 1)
+                x = math.cos(a) * (hh_ - hl) / h * rch
+                if x > 1:
+                    ms.append(near(x))
+    return min(ms)
+
+
+def rows_differ(ri, rm):
+    if len(ri) != len(rm):
+        return f"{len(ri)} rows of rays cast, model {len(rm)}"
+    for a, b in zip(ri, rm):
+        if abs(a[0] - b[0]) > 1e-8:
+            return f"row altitude {a[0]!r} vs model {b[0]!r}"
+        if a[1] != b[1]:
+            return f"row at altitude {a[0]:.6f}: {a[1]} rays, model {b[1]}"
+        if abs(a[0]) < 1.5 and a[1] > 0:
+            tol = 1e-8 / math.cos(a[0])
+            if abs(a[2] - b[2]) > tol or abs(a[3] - b[3]) > tol or abs(a[4] - b[4]) > a[1] * tol or abs(a[5] - b[5]) > 8 * a[1] * tol:
+                return f"row at altitude {a[0]:.6f}: azimuths [{a[2]!r}, {a[3]!r}] sum {a[4]!r}, model [{b[2]!r}, {b[3]!r}] sum {b[4]!r}"
+    return None
+
+
 def main():
     c = Check(PID, "proof")
     c.cov["rule"] = ("seeded generator of viewers (Point/OrientedPoint/Object, 85% positioned 20-350 units from the origin, arbitrary "
@@ -557,7 +679,7 @@ def main():
     exe = common.build_ocaml(PID)
     quick = c.tier == "quick"
     rng = c.rng
-    n_pt, n_ob, n_pl = (1000, 140, 40) if quick else (40000, 4000, 300)
+    n_pt, n_ob, n_pl, n_2d = (1000, 160, 40, 400) if quick else (40000, 4000, 300, 8000)
 
     pts = [gen_point_case(rng, i) for i in range(n_pt)]
     # the recorded witness of F14 and friends first
@@ -568,6 +690,7 @@ def main():
                    target=dict(kind="vector", pos=tp), occ=[], place={}))
     obs = [gen_object_case(rng, i) for i in range(n_ob)]
     pls = [gen_plumbing_case(rng, i) for i in range(n_pl)]
+    tds = [gen_2d_case(rng, i) for i in range(n_2d)]
     if c.replay:
         body = json.load(open(c.replay))
         case = body.get("case", {}).get("case")
@@ -575,6 +698,7 @@ def main():
             pts = [case] if case["id"].startswith("pt") else []
             obs = [case] if case["id"].startswith("ob") else []
             pls = [case] if case["id"].startswith("pl") else []
+            tds = [case] if case["id"].startswith("td") else []
 
     # ---------------------------------------------------------------- (a) points: exact correspondence
     t0 = time.time()
@@ -659,6 +783,113 @@ def main():
         check_object(c, case, r, exe)
 
     phase["objects"] = round(time.time() - t0, 1)
+    t0 = time.time()
+    # ---------------------------------------------------------------- (e) objects: flags / augmentation / windows / ray grid
+    # the rays canSee casts (recorded at the trimesh boundary, nothing ever hit) vs the model's grid, row by row
+    gidx, gcmds = [], []
+    for case in obs:
+        r = ores.get(case["id"])
+        if r is None or "crash" in r or "grid" not in r:
+            continue
+        g = r["grid"]
+        if "crash" in g:
+            c.violation("harness", "ray-grid recording failed", dict(case=case, crash=g["crash"], tb=g.get("tb")), no_input=True)
+            continue
+        if not g["cam_inside"] and g["surface_dist"] > r["d"] - 1e-6:
+            c.hist("grid:skip-beyond-distance")
+            continue
+        cmd, rc = obj_cmd(case, r)
+        gidx.append((case, r, rc))
+        gcmds.append(cmd)
+    gout = common.run_driver(exe, gcmds) if gcmds else []
+    for (case, r, rc), line in zip(gidx, gout):
+        g, m = r["grid"], parse_obj(line)
+        if m is None:
+            c.violation("harness", "model driver failed on an object case", dict(case=case, out=line[:300]), no_input=True)
+            continue
+        itag = "ASSERT" if g.get("exc") == "AssertionError" else ("EXC" if "exc" in g else ("NONE" if g["nrays"] == 0 else "RAYS"))
+        why = None
+        if itag == "EXC":
+            why = "canSee raised " + g["exc"]
+        elif itag != m["tag"]:
+            why = f"implementation: {itag}, model: {m['tag']}"
+        elif itag == "RAYS":
+            why = rows_differ(g["rows"], m["rows"])
+        kindw = "straddle" if (m["ahead"] and m["behind"]) else ("behind" if m["behind"] else "ahead")
+        if why is None:
+            c.hist("grid:" + m["tag"].lower() + ":" + kindw + (":scaled" if rc[0] == "D" else ":fixed-count"))
+            c.hist("grid:extra-vertices:" + ("some" if m["nextra"] else "none"))
+            c.count((case["id"], "grid", case["viewer"], case["target"]), nontrivial=(m["tag"] == "RAYS"))
+            c.cov["traces_validated_against_impl"] += 1
+            c.cov["grid_rays_compared"] = c.cov.get("grid_rays_compared", 0) + m["nrays"]
+            continue
+        mg = grid_margin(m, r, rc)
+        if mg < 1e-6:
+            c.hist("grid:skip-borderline")
+            continue
+        c.cov["disagreements_checked"] += 1
+        c.violation("ray-grid", "the rays canSee casts at an object differ from the model (crossing flags / augmented vertices / windows / ray counts)",
+                    dict(case=case, why=why, impl=dict(tag=itag, nrays=g["nrays"], rows=g["rows"][:6]),
+                         model=dict(tag=m["tag"], ahead=m["ahead"], behind=m["behind"], windows=m["windows"], nrays=m["nrays"], rows=m["rows"][:6]),
+                         margin=mg))
+    phase["grid"] = round(time.time() - t0, 1)
+    t0 = time.time()
+    # ---------------------------------------------------------------- (f) 2D fast path
+    tres = run_chunks("twod", tds) if tds else {}
+    tidx, tcmds = [], []
+    for case in tds:
+        r = tres.get(case["id"])
+        if r is None or "crash" in r:
+            c.violation("harness", "implementation driver crashed", dict(case=case, crash=(r or {}).get("crash"), tb=(r or {}).get("tb")), no_input=True)
+            continue
+        tidx.append((case, r))
+        tcmds.append(" ".join(["S2D", "0" if case["viewer"]["cls"] == "Point2D" else "1"] + [hx(x) for x in r["c"]] +
+                              [hx(r["d"]), hx(r["heading"]), hx(r["angle"])] + [hx(x) for x in case["target"]["pos"]]))
+    tout = common.run_driver(exe, tcmds) if tcmds else []
+    for (case, r), line in zip(tidx, tout):
+        p_ = line.split()
+        if p_[0] == "EXN":
+            c.violation("harness", "model driver failed on a 2D case", dict(case=case, out=line), no_input=True)
+            continue
+        mvis, mm = p_[0] == "1", float.fromhex(p_[1])
+        V, T = case["viewer"], case["target"]
+        c.hist("2d:viewer:" + V["cls"])
+        c.hist("2d:target:" + T["kind"])
+        if "exc" in r:
+            c.violation("2d-exception", "canSee raised in 2D mode", dict(case=case, exc=r["exc"]))
+            continue
+        if T["kind"] != "object":
+            if abs(mm) < TOL and T["pos"][2] == 0:
+                c.hist("2d:skip-boundary")
+                continue
+            c.count((V, T), nontrivial=(norm(r["c"]) > 1e-9 and V["cls"] != "Point2D"))
+            c.cov["traces_validated_against_impl"] += 1
+            c.hist("2d:spec:" + ("visible" if mvis else "outside"))
+            if r["res"] != mvis:
+                c.cov["disagreements_checked"] += 1
+                c.violation("2d-visibility", "2D point visibility differs from membership in the viewer's sector", dict(case=case, impl=r["res"], spec=mvis, margin=mm, facts=r))
+            continue
+        # Object2D targets (bounding polygon vs polygonal sector): one-sided certified conditions
+        rho = math.hypot(T["dims"][0], T["dims"][1]) / 2
+        w = sub(T["pos"], r["c"])
+        dist = norm(w)
+        if mvis and mm > 0.01 * r["d"] + 1e-6:
+            c.hist("2d:object:centre-well-inside")
+            c.count((V, T), nontrivial=True)
+            if not r["res"]:
+                c.violation("2d-object-inside", "a 2D object whose centre is well inside the sector is reported not visible", dict(case=case, margin=mm, facts=r))
+        else:
+            outside = dist - rho > r["d"] + 1e-6
+            if not outside and V["cls"] != "Point2D" and r["angle"] < math.tau - 0.01 and dist > rho:
+                th = abs((math.atan2(w[1], w[0]) - (r["heading"] + math.pi / 2) + math.pi) % (2 * math.pi) - math.pi)
+                al = r["angle"] / 2
+                outside = th > al and dist * math.sin(min(th - al, math.pi / 2)) > rho + 1e-6
+            if outside:
+                c.hist("2d:object:wholly-outside")
+                c.count((V, T), nontrivial=True)
+                if r["res"]:
+                    c.violation("2d-object-outside", "a 2D object wholly outside the sector is reported visible", dict(case=case, facts=r))
+    phase["twod"] = round(time.time() - t0, 1)
     t0 = time.time()
     # ---------------------------------------------------------------- (d) plumbing
     plres = run_chunks("plumbing", pls) if pls else {}
